@@ -40,6 +40,7 @@ import Driver.ApacheFile
 import Driver.PyUtil
 import Driver.Registry
 import Driver.BcryptFinalize
+import Driver.OsCryptBackend
 /-
 Line protocol driver: `<suite> <op> <args…>` per input line, one result line out.
 Compiled (`lean_exe modeldrv`); nothing imported here touches Mathlib.
@@ -88,6 +89,7 @@ def dispatch (line : String) : String :=
   | "putil" :: rest => Driver.PyUtil.handle rest
   | "preg" :: rest => Driver.Registry.handle rest
   | "bfin" :: rest => Driver.BcryptFinalize.handle rest
+  | "ocp" :: rest => Driver.OsCryptBackend.handle rest
   | _ => Driver.bad
 
 partial def loop (h : IO.FS.Stream) (out : IO.FS.Stream) : IO Unit := do
